@@ -141,6 +141,25 @@ R4_WITNESSES = [
 ]
 
 
+# 5-node ground truths (one per Markov equivalence class, enumerated once over all 8782 classes with a transcription
+# of the fix-point loop) in which the orientation rules feed each other:
+#   chainJK     - an edge oriented by Meek rule K has a premise that was oriented by Meek rule J
+#                 (code rule 2 = R1, rule 3 = R2, rule 4 = R3; 13/23/33 do not occur on 5 nodes)
+#   noprogressK - the result is wrong if an orientation by rule K does not trigger another sweep (identity order)
+#   sweeps3     - two productive sweeps are needed
+MOTIFS5 = {
+    "chain11": [[[0, 1], [1, 2], [3, 1], [2, 4]], [[1, 0], [0, 2], [3, 1], [4, 1]], [[0, 1], [2, 0], [4, 0], [2, 1], [1, 3]], [[0, 4], [1, 2], [1, 4], [2, 3], [4, 2]], [[2, 0], [0, 3], [4, 0], [3, 1], [4, 3]], [[0, 1], [0, 3], [0, 4], [3, 1], [1, 4], [2, 3]], [[0, 2], [3, 1], [4, 1], [2, 3], [4, 2], [4, 3]], [[1, 0], [2, 0], [1, 2], [1, 4], [4, 2], [3, 4]]],
+    "chain12": [[[0, 1], [0, 2], [1, 2], [3, 1]], [[0, 2], [1, 3], [3, 2], [2, 4], [3, 4]], [[3, 0], [4, 0], [1, 4], [2, 4], [3, 4]], [[0, 2], [0, 3], [0, 4], [1, 3], [3, 2], [3, 4]], [[1, 0], [2, 0], [1, 2], [1, 4], [3, 2], [4, 2]], [[0, 1], [0, 2], [0, 4], [1, 2], [3, 1], [1, 4], [2, 4]], [[0, 2], [1, 2], [1, 3], [1, 4], [2, 3], [4, 2], [4, 3]], [[2, 0], [3, 0], [4, 0], [1, 4], [2, 3], [2, 4], [3, 4]]],
+    "chain21": [[[0, 1], [0, 2], [1, 2], [3, 1], [2, 4]], [[2, 0], [1, 2], [1, 3], [3, 2], [4, 3]], [[0, 1], [0, 4], [1, 3], [4, 1], [2, 4], [4, 3]], [[0, 1], [2, 0], [4, 0], [4, 1], [2, 4], [3, 4]], [[0, 2], [2, 1], [3, 1], [2, 3], [4, 2], [4, 3]], [[0, 4], [2, 1], [1, 3], [4, 1], [2, 4], [4, 3]], [[1, 0], [2, 0], [0, 3], [0, 4], [1, 3], [3, 4]], [[1, 0], [3, 0], [3, 1], [4, 1], [2, 3], [4, 3]]],
+    "chain22": [[[0, 1], [0, 2], [0, 3], [1, 2], [3, 1], [4, 3]], [[0, 1], [0, 3], [0, 4], [1, 3], [4, 1], [2, 4]], [[0, 1], [2, 0], [4, 0], [2, 1], [1, 3], [2, 3]], [[0, 2], [1, 2], [1, 3], [1, 4], [2, 3], [3, 4]], [[0, 4], [1, 2], [3, 1], [4, 1], [3, 2], [3, 4]], [[1, 0], [0, 3], [4, 0], [1, 3], [1, 4], [2, 4]], [[1, 0], [2, 0], [1, 2], [1, 3], [3, 2], [4, 3]], [[2, 0], [0, 3], [4, 0], [1, 4], [2, 3], [2, 4]]],
+    "chain31": [[[0, 1], [0, 2], [0, 3], [1, 2], [1, 4], [2, 3], [4, 2], [4, 3]], [[0, 1], [0, 2], [0, 3], [2, 1], [4, 1], [3, 2], [4, 2], [3, 4]], [[0, 1], [0, 2], [0, 4], [2, 1], [1, 3], [4, 1], [2, 3], [4, 3]], [[0, 1], [0, 3], [0, 4], [1, 2], [1, 4], [3, 2], [4, 2], [3, 4]], [[0, 1], [2, 0], [3, 0], [4, 0], [2, 1], [4, 1], [2, 3], [3, 4]], [[0, 2], [0, 3], [0, 4], [2, 1], [1, 3], [1, 4], [2, 4], [4, 3]], [[1, 0], [2, 0], [0, 3], [4, 0], [1, 2], [1, 3], [2, 4], [4, 3]], [[1, 0], [2, 0], [3, 0], [1, 3], [1, 4], [2, 3], [4, 2], [4, 3]]],
+    "chain32": [[[0, 1], [0, 2], [0, 3], [0, 4], [1, 2], [2, 3], [4, 2]], [[0, 1], [0, 4], [1, 2], [3, 1], [4, 1], [4, 2], [4, 3]], [[1, 0], [2, 0], [0, 3], [4, 0], [1, 4], [4, 2], [4, 3]], [[0, 1], [0, 2], [0, 3], [0, 4], [1, 2], [3, 1], [4, 1], [4, 2]], [[0, 1], [0, 2], [0, 3], [2, 1], [3, 1], [2, 3], [2, 4], [4, 3]], [[0, 1], [0, 4], [1, 2], [1, 3], [1, 4], [2, 3], [2, 4], [4, 3]], [[0, 2], [0, 4], [2, 1], [3, 1], [4, 1], [2, 3], [2, 4], [3, 4]], [[1, 0], [2, 0], [3, 0], [0, 4], [1, 3], [1, 4], [3, 2], [3, 4]]],
+    "noprogress1": [[[0, 1], [2, 0], [3, 0], [1, 4]], [[0, 1], [2, 0], [3, 2], [4, 2]], [[0, 1], [2, 0], [4, 0], [1, 3]], [[0, 1], [3, 0], [4, 0], [1, 2]], [[0, 2], [3, 0], [4, 0], [2, 1]], [[1, 0], [0, 2], [3, 0], [2, 4]], [[1, 0], [0, 2], [3, 1], [4, 1]], [[1, 0], [0, 2], [4, 0], [2, 3]], [[1, 0], [0, 3], [2, 1], [4, 1]], [[1, 0], [0, 3], [4, 0], [3, 2]], [[1, 0], [0, 4], [2, 1], [3, 1]], [[1, 0], [2, 0], [0, 3], [3, 4]]],
+    "noprogress3": [[[0, 1], [0, 2], [0, 3], [1, 2], [1, 4], [2, 3], [4, 2], [4, 3]], [[0, 1], [0, 2], [0, 3], [2, 1], [1, 3], [4, 1], [2, 4], [4, 3]], [[0, 1], [0, 2], [0, 4], [1, 2], [1, 3], [3, 2], [2, 4], [3, 4]], [[0, 1], [0, 2], [0, 4], [2, 1], [3, 1], [1, 4], [2, 3], [3, 4]], [[0, 1], [0, 3], [0, 4], [1, 2], [1, 4], [2, 3], [2, 4], [4, 3]], [[0, 1], [0, 3], [0, 4], [2, 1], [3, 1], [2, 3], [4, 2], [4, 3]], [[0, 2], [0, 3], [0, 4], [1, 2], [1, 3], [4, 1], [2, 3], [4, 2]], [[0, 2], [0, 3], [0, 4], [2, 1], [1, 3], [1, 4], [2, 4], [4, 3]], [[1, 0], [0, 2], [3, 0], [4, 0], [1, 2], [1, 4], [3, 2], [4, 3]], [[1, 0], [2, 0], [3, 0], [0, 4], [1, 2], [1, 3], [2, 4], [3, 4]], [[1, 0], [2, 0], [3, 0], [2, 1], [3, 1], [4, 1], [2, 4], [4, 3]], [[1, 0], [3, 0], [4, 0], [1, 2], [1, 4], [2, 3], [2, 4], [3, 4]]],
+    "sweeps3": [[[0, 1], [2, 0], [3, 0], [1, 4]], [[1, 0], [2, 1], [3, 1], [3, 2], [4, 2]], [[0, 1], [2, 0], [3, 0], [3, 1], [2, 3], [4, 3]], [[1, 0], [0, 2], [4, 0], [1, 2], [3, 1], [4, 1]], [[2, 0], [4, 0], [1, 2], [1, 4], [3, 2], [2, 4]], [[1, 0], [3, 0], [1, 2], [1, 3], [1, 4], [2, 3], [4, 3]], [[0, 1], [0, 2], [0, 4], [2, 1], [4, 1], [3, 2], [4, 2], [4, 3]], [[0, 3], [0, 4], [1, 2], [3, 1], [1, 4], [3, 2], [4, 2], [3, 4]]],
+}
+
+
 def cases(tier, seed):
     rng = random.Random(seed)
     out = []
@@ -157,6 +176,18 @@ def cases(tier, seed):
             for hs in hs_list:
                 out.append({"kind": "exh", "n": n, "edges": edges, "hashseed": hs, "oseed": rng.randint(0, 10**9),
                             "light": n == 5})
+    # rule chains on 5 nodes: every listed truth once under the identity orders (where the enumeration saw the
+    # chain) and relabelled copies under random orders
+    for fam in sorted(MOTIFS5):
+        ws = MOTIFS5[fam]
+        for w in (ws if fam.startswith("noprogress") or tier == "thorough" else rng.sample(ws, 3)):
+            out.append({"kind": "exh", "n": 5, "edges": w, "oseed": rng.randint(0, 10**9), "light": False,
+                        "ident": True, "src": "motif5:" + fam, "hashseed": rng.choice(seeds)})
+            for _ in range(1 if tier == "quick" else 4):
+                perm = list(range(5))
+                rng.shuffle(perm)
+                out.append({"kind": "exh", "n": 5, "edges": [[perm[u], perm[v]] for u, v in w], "light": False,
+                            "oseed": rng.randint(0, 10**9), "src": "motif5:" + fam, "hashseed": rng.choice(seeds)})
     nrand = 40 if tier == "quick" else 500
     for i in range(nrand):
         n = rng.randint(6, 8)
@@ -527,6 +558,8 @@ def run_truth(case, drv):
     rng = random.Random(case["oseed"])
     light = case.get("light", False)
     tags = ["%s n=%d" % (case["kind"], n), "edges=%d" % len(edges)]
+    if case.get("src"):
+        tags.append("src=" + case["src"])
     spec = None
     if n <= 5:
         sp, imv, imx = drv.call("c12_spec", [list(range(n)), [list(e) for e in edges]])
@@ -549,13 +582,14 @@ def run_truth(case, drv):
     if spec is None:   # larger truths: the model under the same orders supplies the expected CPDAG; checked by class membership below
         pass
     vars_ = list(range(n))
-    rng.shuffle(vars_)
+    if not case.get("ident"):
+        rng.shuffle(vars_)
     df = frame([names[i] for i in vars_], rng)
     df_snap = frame_snapshot(df)
     est = PC(data=df)
     if [idx[v] for v in est.variables] != vars_:
         return bad("impl!=spec:variables-order", {"impl": [idx[v] for v in est.variables], "columns": vars_})
-    maxcs = [n] if (light or case["kind"] == "rand") else sorted({n, md, max(md - 1, 0), 0})
+    maxcs = [n] if (light or case["kind"] == "rand") else sorted({n, md, max(md - 1, 0), 0}, reverse=True)
     for maxc in maxcs:
         exact = maxc >= md
         sp_ = spec
@@ -591,7 +625,8 @@ def run_truth(case, drv):
         inames = list(range(n))
         gi = truth_dag(inames, n, edges)
         vars2 = list(range(n))
-        rng.shuffle(vars2)
+        if not case.get("ident"):
+            rng.shuffle(vars2)
         b = check_pc(PC(data=frame(vars2, rng)), Oracle(gi), inames, {i: i for i in range(n)}, n, edges, drv, 0, n, vars2,
                      list(range(n)), spec if spec is not None else sp_, True, "data+callable/int", light=True)
         if b:
